@@ -498,3 +498,134 @@ func runRemarshalAfterEdit(c *vh.Ctx) {
 		}
 	}
 }
+
+// ---- views of the package's real cipher suites, and conversions that must not share state with the package ----
+
+// deepCopy returns an addressable copy of v that shares no slice backing arrays with it (pointers, funcs and interfaces
+// are identities and stay shared).
+func deepCopy(v reflect.Value) reflect.Value {
+	cp := reflect.New(v.Type()).Elem()
+	switch {
+	case v.Type() == timeType:
+		cp.Set(v)
+	case v.Kind() == reflect.Struct:
+		for i := 0; i < v.NumField(); i++ {
+			fld(cp, i).Set(deepCopy(rd(v, i)))
+		}
+	case v.Kind() == reflect.Slice && !v.IsNil():
+		ns := reflect.MakeSlice(v.Type(), v.Len(), v.Len())
+		for i := 0; i < v.Len(); i++ {
+			ns.Index(i).Set(deepCopy(v.Index(i)))
+		}
+		cp.Set(ns)
+	default:
+		cp.Set(v)
+	}
+	return cp
+}
+
+// aliasCheck: the result of a conversion must be the caller's own: changing every leaf of it must not change what a
+// later conversion of the same source gives (it would, if the result were an entry of a package-level table).
+func aliasCheck(c *vh.Ctx, pairName, dir string, conv func(any) any, src any) {
+	d1 := conv(src)
+	if reflect.ValueOf(d1).IsNil() {
+		return
+	}
+	snap := deepCopy(reflect.ValueOf(d1).Elem())
+	// every field of the result is replaced by an edited private copy (slices the conversion shares with its SOURCE by
+	// design are not written through)
+	edited := 0
+	dv := reflect.ValueOf(d1).Elem()
+	for i := 0; i < dv.NumField(); i++ {
+		if isPkgStructPtr(dv.Type().Field(i).Type) {
+			continue
+		}
+		cp := deepCopy(rd(dv, i))
+		var ls []leaf
+		leaves(cp, "", &ls)
+		for _, l := range ls {
+			if sameShapeEdit(c.Rng, l.v) {
+				edited++
+			}
+		}
+		fld(dv, i).Set(cp)
+	}
+	d2 := reflect.ValueOf(conv(src)).Elem()
+	for i := 0; i < snap.NumField(); i++ {
+		f := snap.Type().Field(i)
+		if isPkgStructPtr(f.Type) || skipFH(pairName, f.Name) {
+			continue
+		}
+		if !same(rd(snap, i), rd(d2, i)) {
+			c.Fail("alias/"+pairName+"/"+dir+"/"+f.Name, "the result of a conversion shares state with the package: after the caller changed the converted struct, "+
+				"converting the same source again gives a different "+f.Name,
+				map[string]any{"pair": pairName, "direction": dir, "source": fmt.Sprintf("%+v", reflect.ValueOf(src).Elem().Interface())},
+				fmt.Sprintf("%#v", rd(d2, i).Interface()), fmt.Sprintf("%#v", rd(snap, i).Interface()))
+		}
+	}
+	reflect.ValueOf(d1).Elem().Set(snap) // undo, in case d1 was shared
+	c.Count("alias-check/" + pairName + "/" + dir)
+	_ = edited
+}
+
+func runTableViews(c *vh.Ctx) {
+	t13, t12 := tls.VerifC31SuiteTables()
+	tables := map[string][]any{"CipherSuiteTLS13": t13, "CipherSuite": t12}
+	emitted := 0
+	for _, pair := range tls.VerifC31Pairs() {
+		pubF := fieldNames(pair.Pub)
+		// state sharing, for every pair, random sources, both directions
+		for k := 0; k < 3; k++ {
+			pub := pair.NewPub()
+			fillAll(c.Rng, reflect.ValueOf(pub).Elem())
+			tweakKnownID(c.Rng, pair.Name, reflect.ValueOf(pub).Elem(), k)
+			aliasCheck(c, pair.Name, "to-private", pair.ToPriv, pub)
+			pr := pair.NewPriv()
+			fillAll(c.Rng, reflect.ValueOf(pr).Elem())
+			tweakKnownID(c.Rng, pair.Name, reflect.ValueOf(pr).Elem(), k)
+			aliasCheck(c, pair.Name, "to-public", pair.ToPub, pr)
+		}
+		entries := tables[pair.Name]
+		if c.Tier == "quick" && len(entries) > 8 {
+			entries = entries[:8]
+		}
+		for ei, e := range entries {
+			roundTrip := func(view any, what string) {
+				priv := pair.ToPriv(view)
+				back := reflect.ValueOf(pair.ToPub(priv)).Elem()
+				vv := reflect.ValueOf(view).Elem()
+				for i, F := range pubF {
+					if counterpart(pair, F) == "" {
+						continue
+					}
+					if !same(rd(vv, i), rd(back, i)) {
+						c.Fail("conv/"+pair.Name+"/"+F+"/pub-priv-pub", "public -> private -> public does not preserve a field that has a counterpart ("+what+")",
+							map[string]any{"pair": pair.Name, "field": F, "view": what, "value": fmt.Sprintf("%#v", rd(vv, i).Interface())},
+							fmt.Sprintf("%#v", rd(back, i).Interface()), "the same value")
+					}
+				}
+				if emitted < 24 && (pair.Name == "CipherSuiteTLS13" || ei < 3) {
+					emitted++
+					tag := map[string]string{"CipherSuiteTLS13": "C3", "CipherSuite": "CS"}[pair.Name]
+					addCase("conv-table", fmt.Sprintf("Cv%spriv %s %s", tag, coqPtr(view), coqPtr(priv)), fmt.Sprintf("%stable/%d/%s", tag, ei, what), true, nil)
+				}
+				c.Count("table-view/" + pair.Name)
+			}
+			view := pair.ToPub(e) // the view of an untouched real suite
+			roundTrip(view, "view of an untouched suite")
+			aliasCheck(c, pair.Name, "to-private-table-view", pair.ToPriv, view)
+			var ls []leaf
+			leaves(reflect.ValueOf(view).Elem(), "", &ls)
+			for li := range ls {
+				v2 := pair.ToPub(e)
+				var l2 []leaf
+				leaves(reflect.ValueOf(v2).Elem(), "", &l2)
+				if !sameShapeEdit(c.Rng, l2[li].v) {
+					continue
+				}
+				roundTrip(v2, "real suite with "+l2[li].path[1:]+" replaced")
+				aliasCheck(c, pair.Name, "to-private-table-view-edited", pair.ToPriv, v2)
+			}
+		}
+	}
+}
